@@ -133,6 +133,48 @@ def describe(case):
 # ---------------------------------------------------------------------------
 
 
+def _const_value(e):
+    """The constant value of e over its whole input space, or None if it is not constant (decided on the reference table)."""
+    try:
+        t, tbl = lang.table(e, 0)
+    except Exception:
+        return None
+    vals = {None if v is None else tuple(__import__("numpy").asarray(v).reshape(-1).tolist()) for _, v in tbl}
+    if len(vals) == 1:
+        (v,) = vals
+        if v is not None and len(set(v)) == 1:
+            return v[0]
+    return None
+
+
+def _int_unit_operand(e):
+    """An integer add/mul somewhere in e one of whose operands is constantly the op's unit (literal or computed):
+    unit removal then keeps the other operand's declared size."""
+
+    def go(x):
+        if x[0] == "S":
+            # substitution may turn an operand into the unit: look at the substituted body point-wise
+            pass
+        if x[0] == "B" and x[1] in ("add", "mul") and lang.ty(x).out[0] != "real":
+            unit = 0 if x[1] == "add" else 1
+            if any(_const_value(c) == unit for c in (x[2], x[3])):
+                return True
+        return any(go(c) for c in lang.children(x))
+
+    if go(e):
+        return True
+    # substitutions of numbers into an integer add/mul operand
+    for s_ in lang.subterms(e):
+        if s_[0] == "S":
+            for b in lang.subterms(s_[1]):
+                if b[0] == "B" and b[1] in ("add", "mul") and lang.ty(b).out[0] != "real":
+                    unit = 0 if b[1] == "add" else 1
+                    for c in (b[2], b[3]):
+                        if _const_value(("S", c, tuple((k, v) for k, v in s_[2] if k in lang.ty(c).inputs))) == unit:
+                            return True
+    return False
+
+
 def _feat(e, what, mode):
     subs = lang.subterms(e)
     return {
@@ -142,10 +184,7 @@ def _feat(e, what, mode):
         "mode": mode,
         "contains_int_floordiv": any(s[0] == "B" and s[1] == "floordiv" and lang.ty(s).out[0] != "real" for s in subs),
         "contains_argreduce": any(s[0] == "U" and s[1] in lang.ARG_REDUCTIONS for s in subs),
-        "int_unit_operand": any(
-            s[0] == "B" and s[1] in ("add", "mul") and lang.ty(s).out[0] != "real" and any(c[0] == "N" and c[1] == (0 if s[1] == "add" else 1) for c in (s[2], s[3]))
-            for s in subs
-        ),
+        "int_unit_operand": _int_unit_operand(e),
     }
 
 
